@@ -2,7 +2,59 @@ import EncodingRs.Model.L1
 import EncodingRs.Lemmas.FamLaws
 import EncodingRs.Lemmas.Life
 /-!
-# C19 — `latin1_byte_compatible_up_to` is exact and does not disturb the decoder
+# C19 — `latin1_byte_compatible_up_to` is exact (and what "does not disturb the decoder" rests on)
+
+About `Decoder.l1` (`Model/L1.lean`), the model of `Decoder::latin1_byte_compatible_up_to`
+(lib.rs → variant.rs → `SingleByteDecoder::latin1_byte_compatible_up_to` /
+`Encoding::ascii_valid_up_to` / `Encoding::iso_2022_jp_ascii_valid_up_to`).
+
+## What is claimed (theorems of this module)
+
+* **The answer in closed form, for all 13 variants and every life-cycle state** — `l1_answer`
+  (`l1_some_iff`, `l1_none_iff`, `l1_eq_some_iff`, `l1_value`): `Decoder.l1 v d bytes =
+  if Neutral v d then some (l1Len v d.cur bytes) else none`. `Neutral v d` is: life cycle
+  `Converting` (so `None` with a BOM byte withheld, with `BB` pending, at the start of the stream,
+  when finished — `l1_none_lifecycle`) and the current variant decoder in its neutral state
+  `NeutralCur`: never for a UTF-16 decoder (nominal or after a BOM switch) or the replacement
+  decoder; always for the stateless single-byte / x-user-defined decoders; for the others exactly
+  when the family state is THE initial state `Fam.init` (`neutralSt_iff_init`; per variant
+  `neutral_big5`, `neutral_shiftJis`, `neutral_eucKr`, `neutral_eucJp`, `neutral_gb`, `neutral_gbk`,
+  `neutral_iso`, and `neutral_singleByte`, `neutral_userDefined`, `neutral_replacement`,
+  `neutral_utf16Be`, `neutral_utf16Le`; uniformly `l1Variant_isSome_iff`). For UTF-8 (nominal, or
+  after an `EF BB BF` switch) the test is `needed = 0` (`neutral_utf8`); on every state reachable
+  from the initial one (`FamReach`) this is the initial state (`utf8_needed_zero_iff_init`), and
+  the other theorems only use `needed = 0`.
+* **Exactness of the number** — the answer is the length of the leading run of counted bytes
+  (`l1Len_eq`, `passCur`: ASCII; ASCII without 0x0E, 0x0F, 0x1B for ISO-2022-JP; ASCII or a byte
+  the table maps to its own value for the single-byte encodings). `l1_sound_exact`: each of the
+  first `n` bytes is passed through by the current decoder as the scalar value equal to the byte,
+  without error and without changing the state, and byte `n` (if any) is not — with ONE
+  exception that is a theorem too: Shift_JIS decodes `0x80` to U+0080 (`shiftJis_0x80_passes`) but
+  the answer stops at it (`shiftJis_0x80_answer`), so there the answer is a sound lower bound and
+  not "the index of the first byte whose value doesn't correspond to the decoded scalar value"
+  of the Rust documentation. (`AsciiRunSpec`, `l1_utf8` … `l1_userDefined`, `l1_iso2022jp`,
+  `l1_single_byte` are the older per-family forms of the same facts.)
+* **Soundness of the answer for the caller** — if the answer is `some n`:
+  `l1_sound_ref` (stream level): `n ≤ bytes.length`, and `dref d (bytes.take n ++ rest) pos =
+  (bytes.take n).map Ev.cp ++ dref d rest (pos + n)`: the decoder says about the first `n` bytes
+  exactly their own values, no error, and about the rest what the same decoder state says;
+  `l1_sound_call` (call level): `Decoder.rawCall k d (bytes.take n) false b1 b2 = .ok .inputEmpty n
+  (bytes.take n) d [(bytes.take n, .inputEmpty, 0)]` for either sink and every stop policy that
+  is not cut short by the output buffer (`Covers`): all `n` bytes read, exactly those values
+  written, `InputEmpty`, and the decoder is left in the state `d` it was in
+  (`l1_sound_call_last`: with `last = true` the same, life cycle `Finished`).
+
+## What is NOT a theorem
+
+"Calling the query does not disturb the decoder" is not a theorem about the model and cannot
+be one: `Decoder.l1` is a pure function of the decoder state by construction (in the Rust the
+method takes `&self` of a type without interior mutability). That the real method neither
+changes the real decoder nor answers differently from `Decoder.l1` is decided by the
+correspondence run: the real decoder is asked before every call of every history, its answer
+is compared with `Decoder.l1` on the model state, and the rest of the history must still match
+the model call by call. What IS proved here is the statement the caller relies on afterwards:
+decoding the announced prefix leaves the decoder in the same state (`l1_sound_call`).
+`Finished`: the Rust panics, the model answers `none`; the harness never asks a finished decoder.
 -/
 namespace EncodingRs.Thm.C19
 open EncodingRs EncodingRs.Model EncodingRs.Lemmas.Core EncodingRs.Lemmas.FamLaws
@@ -187,9 +239,11 @@ theorem l1_single_byte (t : Array Nat) (bytes rest : List Nat) (pos : Nat) :
     have : ¬ (b < 0x80 ∨ t.getD (b - 0x80) 0 = b) := by simpa using hP
     exact ⟨fun h => this (Or.inl h), fun h => this (Or.inr h)⟩
 
-/-- `None` exactly when the decoder is not converting, not neutral, or the encoding
-is never byte-compatible: read off the model (the conditions are those of the
-code; that they mean "mid-sequence" is `neutral_iff_init` below for each family). -/
+/-- `None` whenever the life cycle is not `Converting` (BOM bytes withheld, `BB` pending, at the
+start of the stream, finished). The complete case analysis — also `None` when the current
+variant decoder is not neutral or never byte-compatible, `Some` otherwise — is `l1_answer` below;
+that the neutrality tests of the code mean "the family is in its initial state" is `neutral_*` /
+`neutralSt_iff_init` / `utf8_needed_zero_iff_init`. -/
 theorem l1_none_lifecycle (v : Gen.Variant) (d : Decoder (famOfVariant v)) (bytes : List Nat)
     (h : d.life ≠ .converting) : Decoder.l1 v d bytes = none := by
   unfold Decoder.l1
@@ -324,12 +378,12 @@ theorem neutralSt_iff_init (v : Gen.Variant) (hv : v ≠ .utf8) (s : (famOfVaria
   | eucKr => exact ⟨fun h => ⟨rfl, h⟩, fun h => h.2⟩
 
 /-- the states a family can be in: everything `run`/`call`/`ref` can produce from `Fam.init` -/
-inductive Reach (F : Fam) : F.σ → Prop
-  | init : Reach F F.init
-  | feed (s : F.σ) (b : Nat) : Reach F s → Reach F (F.feed s b).st
-  | eof (s : F.σ) (e : Nat × Nat) (s' : F.σ) : Reach F s → F.eof s = some (e, s') → Reach F s'
-  | pend (s : F.σ) (o : List Nat) (s' : F.σ) : Reach F s → F.pend s = some (o, s') → Reach F s'
-  | alt (s : F.σ) (src : List Nat) (m : Nat) (r : FeedRes F.σ) : Reach F s → F.alt s src = some (m, r) → Reach F r.st
+inductive FamReach (F : Fam) : F.σ → Prop
+  | init : FamReach F F.init
+  | feed (s : F.σ) (b : Nat) : FamReach F s → FamReach F (F.feed s b).st
+  | eof (s : F.σ) (e : Nat × Nat) (s' : F.σ) : FamReach F s → F.eof s = some (e, s') → FamReach F s'
+  | pend (s : F.σ) (o : List Nat) (s' : F.σ) : FamReach F s → F.pend s = some (o, s') → FamReach F s'
+  | alt (s : F.σ) (src : List Nat) (m : Nat) (r : FeedRes F.σ) : FamReach F s → F.alt s src = some (m, r) → FamReach F r.st
 
 theorem utf8Feed_needed_zero (s : Utf8St) (b : Nat) (h : s.needed = 0 → s = utf8Init) :
     (utf8Feed s b).st.needed = 0 → (utf8Feed s b).st = utf8Init := by
@@ -346,7 +400,7 @@ theorem utf8Feed_needed_zero (s : Utf8St) (b : Nat) (h : s.needed = 0 → s = ut
 
 /-- UTF-8: on every reachable state `needed = 0` (the test of `Utf8Decoder::in_neutral_state`)
 holds exactly in the initial state -/
-theorem utf8_reach_inv : ∀ (s : utf8Fam.σ), Reach utf8Fam s → Utf8St.needed s = 0 → s = utf8Init := by
+theorem utf8_reach_inv : ∀ (s : utf8Fam.σ), FamReach utf8Fam s → Utf8St.needed s = 0 → s = utf8Init := by
   intro s h
   induction h with
   | init => intro _; rfl
@@ -360,7 +414,7 @@ theorem utf8_reach_inv : ∀ (s : utf8Fam.σ), Reach utf8Fam s → Utf8St.needed
   | pend s o s' _ hp _ => cases hp
   | alt s src m r _ ha _ => cases ha
 
-theorem utf8_needed_zero_iff_init (s : Utf8St) (h : Reach utf8Fam s) : s.needed = 0 ↔ s = utf8Init :=
+theorem utf8_needed_zero_iff_init (s : Utf8St) (h : FamReach utf8Fam s) : s.needed = 0 ↔ s = utf8Init :=
   ⟨utf8_reach_inv s h, fun e => by rw [e]; rfl⟩
 
 /-- the variant test accepts exactly the neutral states, uniformly in the variant -/
@@ -539,7 +593,7 @@ theorem l1Len_eq (v : Gen.Variant) (c : Cur (famOfVariant v)) (bytes : List Nat)
   all_goals exact asciiValidUpTo_eq bytes
 
 /-- every byte of the counted prefix satisfies the predicate -/
-theorem upTo_take_all (P : Nat → Bool) (bytes : List Nat) : ∀ x ∈ bytes.take (upTo P bytes), P x = true := by
+theorem upTo_take_pass (P : Nat → Bool) (bytes : List Nat) : ∀ x ∈ bytes.take (upTo P bytes), P x = true := by
   induction bytes with
   | nil => intro x hx; simp [upTo] at hx
   | cons b r ih =>
@@ -676,13 +730,17 @@ def Covers : Budget → Nat → Prop
 
 /-- the main loop over a run of bytes each of which is passed through unchanged from a state it
 does not change: everything is read and written, `InputEmpty`, same state -/
-theorem run_pass (F : Fam) (k : Sink) (s : F.σ) :
+theorem run_pass (F : Fam) (k : Sink) (s : F.σ) (last : Bool) (heof : last = true → F.eof s = none) :
     ∀ (l : List Nat) (b : Budget), Covers b l.length →
       (∀ x ∈ l, F.feed s x = ⟨s, [x], none, false⟩) →
-      run F k false s l b = ⟨.inputEmpty, l.length, l, s, 0⟩ := by
+      run F k last s l b = ⟨.inputEmpty, l.length, l, s, 0⟩ := by
   intro l
   induction l with
-  | nil => intro b _ _; simp [run]
+  | nil =>
+    intro b _ _
+    cases last with
+    | false => simp [run]
+    | true => simp [run, heof rfl]
   | cons x r ih =>
     intro b hb hpass
     have hx := hpass x (List.mem_cons_self ..)
@@ -706,21 +764,58 @@ theorem run_pass (F : Fam) (k : Sink) (s : F.σ) :
     rw [ih b.dec hb' (fun y hy => hpass y (List.mem_cons_of_mem _ hy))]
     simp
 
-theorem call_pass (F : Fam) (k : Sink) (s : F.σ) (l : List Nat) (b : Budget) (hp : F.pend s = none)
+theorem call_pass (F : Fam) (k : Sink) (s : F.σ) (l : List Nat) (last : Bool) (b : Budget)
+    (hp : F.pend s = none) (heof : last = true → F.eof s = none)
     (hb : Covers b l.length) (hpass : ∀ x ∈ l, F.feed s x = ⟨s, [x], none, false⟩) :
-    Model.call F k s l false b = ⟨.inputEmpty, l.length, l, s, 0⟩ := by
+    Model.call F k s l last b = ⟨.inputEmpty, l.length, l, s, 0⟩ := by
   unfold Model.call
   rw [hp]
-  exact run_pass F k s l b hb hpass
+  exact run_pass F k s last heof l b hb hpass
 
-theorem cur_call_pass {F : Fam} (k : Sink) (c : Cur F) (l : List Nat) (b : Budget) (hp : CurNoPend c)
+/-- whichever decoder is current has nothing to report at the end of the stream -/
+def CurNoEof {F : Fam} : Cur F → Prop
+  | .nominal s => F.eof s = none
+  | .utf8 s => utf8Fam.eof s = none
+  | .utf16be s => (utf16Fam true).eof s = none
+  | .utf16le s => (utf16Fam false).eof s = none
+
+theorem cur_call_pass {F : Fam} (k : Sink) (c : Cur F) (l : List Nat) (last : Bool) (b : Budget)
+    (hp : CurNoPend c) (heof : last = true → CurNoEof c)
     (hb : Covers b l.length) (hpass : ∀ x ∈ l, CurPasses c x) :
-    c.call k l false b = ⟨.inputEmpty, l.length, l, c, 0⟩ := by
+    c.call k l last b = ⟨.inputEmpty, l.length, l, c, 0⟩ := by
   cases c with
-  | nominal s => simp only [Cur.call, call_pass F k s l b hp hb hpass]
-  | utf8 s => simp only [Cur.call, call_pass utf8Fam k s l b hp hb hpass]
-  | utf16be s => simp only [Cur.call, call_pass (utf16Fam true) k s l b hp hb hpass]
-  | utf16le s => simp only [Cur.call, call_pass (utf16Fam false) k s l b hp hb hpass]
+  | nominal s => simp only [Cur.call, call_pass F k s l last b hp heof hb hpass]
+  | utf8 s => simp only [Cur.call, call_pass utf8Fam k s l last b hp heof hb hpass]
+  | utf16be s => simp only [Cur.call, call_pass (utf16Fam true) k s l last b hp heof hb hpass]
+  | utf16le s => simp only [Cur.call, call_pass (utf16Fam false) k s l last b hp heof hb hpass]
+
+/-- a neutral state has nothing to report at the end of the stream -/
+theorem neutral_eof (v : Gen.Variant) (s : (famOfVariant v).σ) (hn : NeutralSt v s) :
+    (famOfVariant v).eof s = none := by
+  cases v with
+  | singleByte t a b c => rfl
+  | utf8 =>
+    have hn' : Utf8St.needed s = 0 := hn
+    show (if Utf8St.needed s ≠ 0 then _ else none) = none
+    rw [if_neg (fun h => h hn')]
+  | gbk => have hs : s = gbInit := hn; subst hs; rfl
+  | gb18030 => have hs : s = gbInit := hn; subst hs; rfl
+  | big5 => have hs : s = none := hn; subst hs; rfl
+  | eucJp => have hs : s = EucJpSt.none := hn; subst hs; rfl
+  | iso2022Jp => have hs : s = isoInit := hn; subst hs; rfl
+  | shiftJis => have hs : s = none := hn; subst hs; rfl
+  | eucKr => have hs : s = none := hn; subst hs; rfl
+  | replacement => exact hn.elim
+  | utf16Be => exact hn.elim
+  | utf16Le => exact hn.elim
+  | userDefined => rfl
+
+theorem neutralCur_eof (v : Gen.Variant) (c : Cur (famOfVariant v)) (hn : NeutralCur v c) : CurNoEof c := by
+  cases c with
+  | nominal s => exact neutral_eof v s hn
+  | utf8 s => exact neutral_eof .utf8 s hn
+  | utf16be s => exact hn.elim
+  | utf16le s => exact hn.elim
 
 /-- **C19 `l1_sound` (b), call level**: if the decoder answers `some n`, then the raw
 (`*_without_replacement`) call that is handed exactly the first `n` bytes (not `last`; any sink;
@@ -740,12 +835,35 @@ theorem l1_sound_call (v : Gen.Variant) (d : Decoder (famOfVariant v)) (bytes : 
   have hlen : (bytes.take n).length = n := by
     rw [List.length_take]; apply Nat.min_eq_left; rw [hn]; exact upTo_le _ _
   have hall : ∀ x ∈ bytes.take n, CurPasses cur x := by
-    intro x hx; rw [hn] at hx; exact hpass x (upTo_take_all _ bytes x hx)
-  have hcall := cur_call_pass k cur (bytes.take n) b2 hp (by rw [hlen]; exact hb) hall
+    intro x hx; rw [hn] at hx; exact hpass x (upTo_take_pass _ bytes x hx)
+  have hcall := cur_call_pass k cur (bytes.take n) false b2 hp (fun h => by cases h) (by rw [hlen]; exact hb) hall
   show checkingEnd k cur (bytes.take n) false b2 0 [] [] = _
   unfold checkingEnd
   simp only [List.drop_zero, hcall, hlen, Bool.false_eq_true, false_and, if_false, Nat.add_zero,
     List.nil_append]
+
+/-- the same call with `last = true` (the first `n` bytes are the end of the stream): identical
+result, nothing is reported at the end of the stream, and the only change to the decoder is that
+its life cycle is `Finished` — the variant decoder is still in the same state -/
+theorem l1_sound_call_last (v : Gen.Variant) (d : Decoder (famOfVariant v)) (bytes : List Nat) (n : Nat)
+    (h : Decoder.l1 v d bytes = some n) (k : Sink) (b1 b2 : Budget) (hb : Covers b2 n) :
+    Decoder.rawCall k d (bytes.take n) true b1 b2
+      = .ok .inputEmpty n (bytes.take n) ⟨.finished, d.cur⟩ [(bytes.take n, .inputEmpty, 0)] := by
+  obtain ⟨⟨hl, hc⟩, hn⟩ := (l1_eq_some_iff v d bytes n).1 h
+  obtain ⟨life, cur⟩ := d
+  simp only at hl hc hn
+  subst hl
+  rw [l1Len_eq] at hn
+  obtain ⟨hp, hpass⟩ := neutralCur_pass v cur hc
+  have hlen : (bytes.take n).length = n := by
+    rw [List.length_take]; apply Nat.min_eq_left; rw [hn]; exact upTo_le _ _
+  have hall : ∀ x ∈ bytes.take n, CurPasses cur x := by
+    intro x hx; rw [hn] at hx; exact hpass x (upTo_take_pass _ bytes x hx)
+  have hcall := cur_call_pass k cur (bytes.take n) true b2 hp (fun _ => neutralCur_eof v cur hc)
+    (by rw [hlen]; exact hb) hall
+  show checkingEnd k cur (bytes.take n) true b2 0 [] [] = _
+  unfold checkingEnd
+  simp only [List.drop_zero, hcall, hlen, and_self, if_true, Nat.add_zero, List.nil_append]
 
 /-! #### maximality in the semantic sense: byte `n` is not passed through
 
@@ -760,7 +878,7 @@ theorem ne_pass_of_out {σ : Type} (r : FeedRes σ) (s : σ) (b : Nat) (h : r.ou
     r ≠ ⟨s, [b], none, false⟩ := fun e => h (by rw [e])
 
 /-- a leaf `.ok st out` / `.bad …` of a feed function whose output is not `[b]` -/
-macro "stop_leaf" : tactic =>
+local macro "stop_leaf" : tactic =>
   `(tactic| (apply ne_pass_of_out; simp [FeedRes.ok, FeedRes.bad] <;> omega))
 
 theorem singleByte_stop (t : Array Nat) (b : Nat) (h1 : ¬ b < 0x80) (h2 : t.getD (b - 0x80) 0 ≠ b) :
@@ -918,7 +1036,7 @@ theorem l1_sound_exact (v : Gen.Variant) (d : Decoder (famOfVariant v)) (bytes :
   obtain ⟨⟨_, hc⟩, hn⟩ := (l1_eq_some_iff v d bytes n).1 h
   rw [l1Len_eq] at hn
   subst hn
-  refine ⟨fun x hx => (neutralCur_pass v d.cur hc).2 x (upTo_take_all _ bytes x hx), fun hlt => ?_⟩
+  refine ⟨fun x hx => (neutralCur_pass v d.cur hc).2 x (upTo_take_pass _ bytes x hx), fun hlt => ?_⟩
   obtain ⟨b, hb, hP⟩ := upTo_maximal _ bytes hlt
   exact ⟨b, hb, neutralCur_stop v d.cur hc b hP⟩
 
@@ -926,5 +1044,47 @@ theorem l1_sound_exact (v : Gen.Variant) (d : Decoder (famOfVariant v)) (bytes :
 example : singleByteL1 (Gen.singleByteTables.getD 19 #[]) [0x61, 0xE9, 0x62, 0x80, 0x63] = 3 := by decide +kernel
 example : asciiValidUpTo [0x61, 0x62, 0xE9] = 2 := by decide
 example : iso2022JpAsciiValidUpTo [0x61, 0x1B, 0x62] = 1 := by decide
+
+/-- `l1_answer`: a neutral Shift_JIS decoder answers, one with a lead byte pending does not, one
+that is still waiting for a BOM does not, one a BOM switched to UTF-16 does not -/
+example : Decoder.l1 .shiftJis ⟨.converting, .nominal none⟩ [0x61, 0x62, 0xE9] = some 2 := rfl
+example : Neutral .shiftJis ⟨.converting, .nominal none⟩ := ⟨rfl, rfl⟩
+example : ¬ Neutral .shiftJis ⟨.converting, .nominal (some 3)⟩ := fun h => by cases h.2
+example : ¬ Neutral .shiftJis ⟨.seenUtf8First, .nominal none⟩ := fun h => by cases h.1
+example : ¬ Neutral .shiftJis ⟨.converting, .utf16be utf16Init⟩ := fun h => h.2
+example : Decoder.l1 .shiftJis ⟨.converting, .nominal (some 3)⟩ [0x61] = none :=
+  (l1_none_iff _ _ _).2 (fun h => by cases h.2)
+example : Decoder.l1 .shiftJis ⟨.convertingWithPendingBB, .nominal none⟩ [0x61] = none :=
+  (l1_none_iff _ _ _).2 (fun h => by cases h.1)
+
+/-- `l1_sound_call` on a concrete decoder: the hypothesis is satisfiable and the conclusion is
+what the model computes (`rfl`) -/
+example : Decoder.rawCall .utf8 (⟨.converting, .nominal none⟩ : Decoder (famOfVariant .shiftJis))
+      [0x61, 0x62] false .unlimited .unlimited
+    = .ok .inputEmpty 2 [0x61, 0x62] ⟨.converting, .nominal none⟩ [([0x61, 0x62], .inputEmpty, 0)] :=
+  l1_sound_call .shiftJis ⟨.converting, .nominal none⟩ [0x61, 0x62, 0xE9] 2 rfl .utf8 .unlimited .unlimited trivial
+
+example : Decoder.rawCall .utf16 (⟨.converting, .nominal none⟩ : Decoder (famOfVariant .shiftJis))
+      [0x61, 0x62] false .unlimited (.full 2)
+    = .ok .inputEmpty 2 [0x61, 0x62] ⟨.converting, .nominal none⟩ [([0x61, 0x62], .inputEmpty, 0)] := rfl
+
+/-- the same for windows-1252 (`0xE9` is é = U+00E9 and is counted, `0x80` is € and is not) and
+for the UTF-8 decoder an `EF BB BF` switched a windows-1252 decoder to -/
+example : Decoder.rawCall .utf8 (⟨.converting, .nominal ()⟩ : Decoder (famOfVariant (.singleByte 19 160 32 96)))
+      ([0x61, 0xE9, 0x62, 0x80, 0x63].take 3) false .unlimited .unlimited
+    = .ok .inputEmpty 3 [0x61, 0xE9, 0x62] ⟨.converting, .nominal ()⟩ [([0x61, 0xE9, 0x62], .inputEmpty, 0)] :=
+  l1_sound_call (.singleByte 19 160 32 96) ⟨.converting, .nominal ()⟩ [0x61, 0xE9, 0x62, 0x80, 0x63] 3
+    (congrArg some (by decide +kernel)) .utf8 .unlimited .unlimited trivial
+
+example : Decoder.rawCall .utf8 (⟨.converting, .utf8 utf8Init⟩ : Decoder (famOfVariant (.singleByte 19 160 32 96)))
+      ([0x61, 0xE9, 0x62].take 1) false .unlimited .unlimited
+    = .ok .inputEmpty 1 [0x61] ⟨.converting, .utf8 utf8Init⟩ [([0x61], .inputEmpty, 0)] :=
+  l1_sound_call (.singleByte 19 160 32 96) ⟨.converting, .utf8 utf8Init⟩ [0x61, 0xE9, 0x62] 1 rfl
+    .utf8 .unlimited .unlimited trivial
+
+/-- `l1_sound_ref` is not vacuous either: its third conjunct on a concrete input -/
+example : ∃ b, [0x61, 0x62, 0xE9][2]? = some b ∧
+    passCur .shiftJis (.nominal none : Cur (famOfVariant .shiftJis)) b = false :=
+  (l1_sound_ref .shiftJis ⟨.converting, .nominal none⟩ [0x61, 0x62, 0xE9] 2 rfl [] 0).2.2 (by decide)
 
 end EncodingRs.Thm.C19
